@@ -196,7 +196,7 @@ def _check_run_payload(check, an: Analysis):
             if exit_cls == 'normal':
                 # what the generator yields becomes the target and the next event to wait for
                 stored = [e for e in rest[:4] if e.kind == 'store' and e.depth == 0
-                          and e['value'] is node]
+                          and rules.is_site(node, e['value'])]
                 paths_ = {e['path'] for e in stored}
                 if 'self.target' not in paths_ or not any(
                         isinstance(e.node, ast.Name) for e in stored):
